@@ -13,7 +13,7 @@
      ([dset]: overwrite in place keeps the position, a new key is appended).
    * [conditions.TRUE]/[conditions.FALSE] are the singletons; the code tests them with [is], the
      model with a match on [CT]/[CF] (assumption: nobody instantiates [_True()]/[_False()] again). *)
-From Coq Require Import List Bool Arith PeanoNat.
+From Coq Require Import List Bool.
 Import ListNotations.
 
 (* ------------------------------------------------------------------------------------------ *)
